@@ -16,6 +16,7 @@ static struct { const char *name; int (*fn)(FILE *, FILE *); } cmds[] = {
     {"update", cmd_update},
     {"tool", cmd_tool},
     {"fault", cmd_fault},
+    {"sched", cmd_sched},
     {NULL, NULL}
 };
 
